@@ -1457,6 +1457,14 @@ func (m *Machine) equal(pos token.Pos, a, b Value) Value {
 		if n, ok := b.(int64); ok && a.HasLower && n < a.Lower {
 			return false
 		}
+		// a condition compared with a constant truth value is that condition (a tagless switch
+		// compares every case with true)
+		if t, ok := b.(bool); ok {
+			if t {
+				return a
+			}
+			return &Unknown{Why: "!(" + a.Why + ")"}
+		}
 		return &Unknown{Why: "(" + a.Why + " == " + TermOf(b) + ")"}
 	}
 	if u, ok := b.(*Unknown); ok {
